@@ -5,6 +5,7 @@ ping-pong, `*=`, `dgr`, `c`).
 import Qvnt.Props.C04
 import Qvnt.Lemmas.GenOps.multi_apply_eq
 import Qvnt.Lemmas.GenOps.multi_mul_assign_eq
+import Qvnt.Lemmas.GenOps.quant_apply_eq
 
 namespace Qvnt
 open Qvnt.Gen2
@@ -31,6 +32,17 @@ theorem C04_code_mul (x y : MultiOp R) (hx : ∀ g ∈ x, g.ctrl < 2 ^ 64) (hy :
     · exact hy g h
   rw [multi_mul_assign_eq, multi_apply_eq _ hxy a out ho, multi_apply_eq x hx a out ho,
     multi_apply_eq y hy (MultiOp.applyArr x a) out (by rw [MultiOp.applyArr_size]; exact ho), MultiOp.applyArr_mul]
+
+/-- **on a register**: the translated `QReg::apply` of a product built with the translated `*=` is the translated `apply` of
+the left factor followed by that of the right factor -/
+theorem C04_code_reg (r : QReg R) (x y : MultiOp R) (hx : ∀ g ∈ x, g.ctrl < 2 ^ 64) (hy : ∀ g ∈ y, g.ctrl < 2 ^ 64) :
+    quant_apply (ofModel r) (multi_mul_assign x y) = quant_apply (quant_apply (ofModel r) x) y := by
+  have hxy : ∀ g ∈ MultiOp.mul x y, g.ctrl < 2 ^ 64 := by
+    intro g hg
+    rcases List.mem_append.1 hg with h | h
+    · exact hx g h
+    · exact hy g h
+  rw [multi_mul_assign_eq, quant_apply_eq r _ hxy, quant_apply_eq r x hx, quant_apply_eq (r.apply x) y hy, C04_reg]
 
 end
 end Qvnt
